@@ -2,7 +2,10 @@ import vlib
 
 class P(vlib.Prop):
     id = "C06"
-    rule = ("e2e stage: real builds — build.New over a tarfs and BuildLayer (packages from a synthetic signed repository with directories, files of sizes around the block size, "
+    rule = ("faults stage (faults DURING serialisation): the real ImageLayoutToLayer over a filesystem wrapped by the harness — the context cancelled before the walk and while the k-th entry is "
+            "produced (k swept over the tree), Stat/ReadDir of the root failing, ReadDir of a chosen directory, Readlink, Readnod, Open of a chosen file's content failing; both backends; "
+            "outcome (error, or the untarred layer) compared with Model/TarFaults.v, and a layer handed out despite the fault must be faithful to the tree (quick 130 cases, thorough ~2000). "
+            "e2e stage: real builds — build.New over a tarfs and BuildLayer (packages from a synthetic signed repository with directories, files of sizes around the block size, "
             "setuid/setgid/sticky modes, owners with and without accounts, extended attributes, symlinks, hard links recorded in the package, long and non-ASCII names; accounts; "
             "directory / empty-file / symlink / permissions / hardlink path mutations), i.e. the REAL ImageLayoutToLayer with checkPaths and file creation; the filesystem the build left "
             "behind is read back through the interface, the layer BuildLayer hands out is untarred by the harness's own reader, and both go to the same check as the layers stage "
@@ -33,6 +36,7 @@ class P(vlib.Prop):
         dict(name="layerfile", cmd="c06", args=lambda t, s: ["-stage", "layerfile"]),
         dict(name="bytes", cmd="c06", args=lambda t, s: ["-stage", "bytes"]),
         dict(name="e2e", cmd="c06", args=lambda t, s: ["-stage", "e2e"]),
+        dict(name="faults", cmd="c06", args=lambda t, s: ["-stage", "faults"]),
     )
     watch = ("pkg/build/tarball.go",)
     assumptions = (
